@@ -14,6 +14,7 @@ import IocProofs.Lemmas.ValueTop
 import IocProofs.Lemmas.ValueDefault
 import IocProofs.Lemmas.ValueTwice
 import IocProofs.Lemmas.ValueBinder
+import IocProofs.Lemmas.SemStages
 namespace Ioc.C17
 open Ioc Ioc.Tag Ioc.Value
 
@@ -267,5 +268,82 @@ theorem C17_set_sibling_lost_counterexample :
 theorem C17_edit_is_no_set (J : Json) (evalE : Bytes → Except Err Val) (validate : FVal → List Bytes → Bool)
     (b : Binder) (late : List HProp) :
     populateLater J evalE validate b [] late = populateAll J evalE validate b.get stageOrder late := rfl
+
+/-! ### the REGENERATED stage functions (harness/cmd/facts/prog.go → Ioc.Generated.Progs)
+
+    `props_PostProcessProperties` and `value_PostProcessProperties` are the syntax trees of
+    propertiesAwarePostProcessors.PostProcessProperties / valueAwarePostProcessors.PostProcessProperties as they are in /repo
+    now.  Under the interpretation Ioc.SemStages (Configure.Get, Unmarshall, ParseAny, IsRequired are parameters; the world is
+    the log of SetConfiguration / Unmarshall calls) they are the model loops `stageLoop (prefixNode …)` / `stageLoop (valueNode …)`
+    for EVERY list of property nodes and every behaviour of the parameters; what a node decides is `prefixDecision` /
+    `valueDecision`, and the hand-written stages `Value.prefixStage` / `Value.valueStage` are instances of the same decisions. -/
+section code
+open Ioc.Go Ioc.Sem
+variable (props : List SProp) (cfg : String → Option Nat) (unm : Nat → Nat → Option String) (parse : String → Except String Nat)
+
+theorem C17_code_prefix_stage (n : Nat) (w : SW) :
+    run (stagePrims props cfg unm parse) Progs.props_PostProcessProperties
+        [.list ((List.range' 0 n).map (fun i => Go.Val.ref i 20)), .str "c", .str "n"] w =
+      some (stageResult (stageLoop (prefixNode props cfg unm) (List.range' 0 n) w).2,
+            (stageLoop (prefixNode props cfg unm) (List.range' 0 n) w).1) :=
+  props_sem props cfg unm parse n w
+
+/-- a prefix node: SetConfiguration always, the decoder exactly when the key is configured, and the outcome is `prefixDecision` -/
+theorem C17_code_prefix_node (i : Nat) (w : SW) (ht : (spropAt props i).tag = "prefix") :
+    (prefixNode props cfg unm i w).2 = (match prefixNodeDecision props cfg unm i w with | .fail e => some e | _ => none) ∧
+    (prefixNode props cfg unm i w).1 =
+      w ++ [.setCfg i (tagValNow props w i) (cfg (tagValNow props w i))] ++
+        (match cfg (tagValNow props w i) with | none => [] | some a => [.unmarshal i a]) :=
+  ⟨prefixNode_decision props cfg unm i w ht, prefixNode_events props cfg unm i w ht⟩
+
+/-- nodes of other tags are not touched by the prefix stage -/
+theorem C17_code_prefix_skips_others (i : Nat) (w : SW) (ht : (spropAt props i).tag ≠ "prefix") :
+    prefixNode props cfg unm i w = (w, none) := by
+  simp [prefixNode, ht]
+
+theorem C17_code_value_stage (n : Nat) (w : SW) :
+    run (stagePrims props cfg unm parse) Progs.value_PostProcessProperties
+        [.list ((List.range' 0 n).map (fun i => Go.Val.ref i 20)), .str "c", .str "n"] w =
+      some (stageResult (stageLoop (valueNode props unm parse) (List.range' 0 n) w).2,
+            (stageLoop (valueNode props unm parse) (List.range' 0 n) w).1) :=
+  value_sem props cfg unm parse n w
+
+theorem C17_code_value_node (i : Nat) (w : SW) (ht : (spropAt props i).tag = "value") :
+    (valueNode props unm parse i w).2 = (match valueNodeDecision props unm parse i w with | .fail e => some e | _ => none) :=
+  valueNode_decision props unm parse i w ht
+
+/-- the hand-written prefix stage is the same decision: absent ⇒ required-error or skip, else the decoder's verdict -/
+theorem C17_prefixStage_is_decision (c : Cfg) (args : Tag.Args) (ty : FieldTy) (tv : Bytes) :
+    prefixStage c args ty tv =
+      match prefixDecision (decide (c tv = .null)) (Tag.isRequired args) Err.required
+              (match decode ty (c tv) with | .error e => some e | .ok _ => none) with
+      | .skip => .ok none
+      | .fail e => .error e
+      | .bind => (decode ty (c tv)).map some := by
+  unfold prefixStage prefixDecision unmarshall
+  by_cases h : c tv = .null
+  · simp only [h, if_true, decide_true]
+    cases Tag.isRequired args <;> simp
+  · simp only [h, if_false, decide_false, Bool.false_eq_true]
+    cases decode ty (c tv) <;> simp [Except.map]
+
+/-- … and so is the value stage: empty text ⇒ required-error or skip, else parse, then decode -/
+theorem C17_valueStage_is_decision (J : Json) (args : Tag.Args) (ty : FieldTy) (tv : Bytes) :
+    valueStage J args ty tv =
+      match valueDecision tv.isEmpty (Tag.isRequired args) Err.required (parseAny J tv)
+              (fun v => match unmarshall ty v with | .error e => some e | .ok _ => none) with
+      | .skip => .ok none
+      | .fail e => .error e
+      | .bind => (match parseAny J tv with | .ok v => unmarshall ty v | .error e => .error e) := by
+  unfold valueStage valueDecision
+  cases tv.isEmpty
+  · simp only [Bool.false_eq_true, if_false]
+    cases parseAny J tv with
+    | error e => simp
+    | ok v => cases h : unmarshall ty v <;> simp [h]
+  · simp only [if_true]
+    cases Tag.isRequired args <;> simp
+
+end code
 
 end Ioc.C17
